@@ -35,9 +35,9 @@ def rand_schemas(seed, n):
 # ---- violation handling -------------------------------------------------------------
 
 def save_replay(prop, seg_lines):
-    os.makedirs(os.path.join(VERIF, "replays"), exist_ok=True)
+    os.makedirs(REPLAY_DIR, exist_ok=True)
     hid = hashlib.md5("".join(seg_lines).encode()).hexdigest()[:12]
-    path = os.path.join(VERIF, "replays", "%s-%s.ndjson" % (prop, hid))
+    path = os.path.join(REPLAY_DIR, "%s-%s.ndjson" % (prop, hid))
     with open(path, "w") as f:
         f.writelines(seg_lines)
     return path
